@@ -14,6 +14,7 @@ pub fn scenario(tier: &str) -> IncScn {
         IncRoot { label: "native-lp/positions+flow+epoch".into(), lp_native: true, fee_kind: FeeKind::NativeDiff, prefix: 2, standing_allowance: false },
     ];
     roots.push(IncRoot { label: "native-lp/flow-ended-after-6-epochs".into(), lp_native: true, fee_kind: FeeKind::NativeDiff, prefix: 3, standing_allowance: false });
+    roots.push(IncRoot { label: "native-lp/two-flows-55-unclaimed-epochs".into(), lp_native: true, fee_kind: FeeKind::NativeDiff, prefix: 6, standing_allowance: false });
     if tier != "quick" {
         roots.push(IncRoot { label: "native-lp/positions".into(), lp_native: true, fee_kind: FeeKind::Cw20Diff, prefix: 1, standing_allowance: false });
         roots.push(IncRoot { label: "native-lp/99-unclaimed-epochs".into(), lp_native: true, fee_kind: FeeKind::NativeDiff, prefix: 4, standing_allowance: false });
